@@ -351,7 +351,6 @@ func C19(c *Ctx) {
 	_ = fmt.Sprintf
 }
 
-
 // blockReach: to is reachable from from through CFG successors (from itself included).
 func blockReach(from, to *ssa.BasicBlock) bool {
 	seen := map[*ssa.BasicBlock]bool{}
